@@ -74,6 +74,7 @@ def handleLine (line : String) : String :=
     | "c19s" => C19.handleSet args obs
     | "c19w" => C19.handleWriter args obs
     | "c20e" => C20.handleError args obs
+    | "c20x" => C20.handleX args obs
     | "c20s" => C20.handleStatus args obs
     | _ => "bad-suite\tFAIL:bad-suite"
   | [] => "bad-line\tFAIL:bad-line"
